@@ -274,26 +274,26 @@ theorem stepRef_sep (w w' : RWorld) (toks : List String) (out : String) (hs : w.
   · simp only [Option.bind_eq_bind, Option.bind_eq_some_iff, Option.pure_def] at h
     obtain ⟨idx, _, h⟩ := h
     split at h
-    · simp at h
+    · simp only [Option.some.injEq, Prod.mk.injEq] at h; rw [← h.1]; exact hs
     · simp only [Option.some.injEq, Prod.mk.injEq] at h; rw [← h.1]; exact w.Sep_construct hs _
   · simp only [Option.bind_eq_bind, Option.bind_eq_some_iff, Option.pure_def] at h
     obtain ⟨i, _, h⟩ := h
     split at h
-    · simp at h
+    · simp only [Option.some.injEq, Prod.mk.injEq] at h; rw [← h.1]; exact hs
     · simp only [Option.some.injEq, Prod.mk.injEq] at h; rw [← h.1]; exact w.Sep_construct hs _
   · simp only [Option.bind_eq_bind, Option.bind_eq_some_iff, Option.pure_def] at h
     obtain ⟨i, _, ops, _, h⟩ := h
     split at h
-    · simp at h
+    · simp only [Option.some.injEq, Prod.mk.injEq] at h; rw [← h.1]; exact hs
     · simp only [Option.some.injEq, Prod.mk.injEq] at h; rw [← h.1]; exact w.Sep_inplace hs _ _
   · simp only [Option.bind_eq_bind, Option.bind_eq_some_iff, Option.pure_def] at h
     obtain ⟨i, _, ops, _, h⟩ := h
     split at h
-    · simp at h
+    · simp only [Option.some.injEq, Prod.mk.injEq] at h; rw [← h.1]; exact hs
     · simp only [Option.some.injEq, Prod.mk.injEq] at h; rw [← h.1]; exact w.Sep_copied hs _ _
   · simp only [Option.bind_eq_bind, Option.bind_eq_some_iff, Option.pure_def] at h
-    obtain ⟨i, _, o, _, h⟩ := h
-    simp only [Option.some.injEq, Prod.mk.injEq] at h; rw [← h.1]; exact hs
+    obtain ⟨i, _, h⟩ := h
+    split at h <;> (simp only [Option.some.injEq, Prod.mk.injEq] at h; rw [← h.1]; exact hs)
   · simp only [Option.some.injEq, Prod.mk.injEq] at h; rw [← h.1]; exact hs
   · simp at h
 
